@@ -159,4 +159,64 @@ pub fn generate(em: &mut Emitter, seed: u64, thorough: bool) {
         }
     }
     em.stat("metamorphic_pairs", meta);
+
+    // (4) exec of a procedure with its own locals frame behaves like the body at the call site with
+    //     a fresh frame: whatever the last node of the body is (plain operation, if/else, while,
+    //     repeat, exec, call) and whatever decorator-only instructions surround it, the caller's
+    //     frame pointer and the caller's locals are the same before and after the exec, and the
+    //     stack effect equals that of the body executed without the frame checks
+    let lasts: [(&str, &str); 7] = [
+        ("plain", "push.5 add"),
+        ("if", "push.1 if.true push.5 add else push.6 add end"),
+        ("if-noelse", "push.0 if.true push.5 add end"),
+        ("while", "push.1 while.true push.5 add push.0 end"),
+        ("repeat", "repeat.2 push.5 add end"),
+        ("exec", "exec.h"),
+        ("call", "call.h"),
+    ];
+    let decos: [&str; 5] = ["", "emit.1", "trace.2", "emit.1 trace.2", "push.3 drop emit.1"];
+    let mut frames = 0u64;
+    for (lname, last) in lasts.iter() {
+        for deco_after in decos.iter() {
+            for deco_before in ["", "emit.7"] {
+                for nloc in [1u32, 2, 5] {
+                    let body = format!("{} push.9 loc_store.0 loc_load.0 add {} {}", deco_before, last, deco_after);
+                    let checked = format!(
+                        "proc.h push.2 add end\nproc.f.{nloc} {body} end\nproc.g.3 push.77 loc_store.2 locaddr.0 mem_store.5000 exec.f locaddr.0 mem_load.5000 assert_eq loc_load.2 push.77 assert_eq exec.f locaddr.0 mem_load.5000 assert_eq end\nbegin push.1 exec.g end",
+                        nloc = nloc, body = body);
+                    // the same computation without the frame checks (and without g's own locals)
+                    let plain = format!(
+                        "proc.h push.2 add end\nproc.f.{nloc} {body} end\nbegin push.1 exec.f exec.f end",
+                        nloc = nloc, body = body);
+                    let (pc, pp) = match (assemble(None, &checked, false), assemble(None, &plain, false)) {
+                        (Ok(a), Ok(b)) => (a, b),
+                        (a, b) => {
+                            em.oracle_failures.push(format!("C06 frame program does not assemble ({} / decorators `{}`): {:?} {:?} :: {}", lname, deco_after, a.err().map(|e| e.to_string()), b.err().map(|e| e.to_string()), checked));
+                            continue;
+                        }
+                    };
+                    let rc = exec_case(em, &pc, &[], &[], Some(5000), "");
+                    let rp = exec_case(em, &pp, &[], &[], Some(5000), "");
+                    frames += 1;
+                    if !rp.ok {
+                        em.oracle_failures.push(format!("C06 frame program (plain form) fails: {} :: {}", rp.answer, plain));
+                        continue;
+                    }
+                    if !rc.ok {
+                        em.oracle_failures.push(format!(
+                            "C06 exec of a procedure with locals disturbs the caller's frame (last node {}, decorators before `{}` after `{}`, {} locals): {} :: {}",
+                            lname, deco_before, deco_after, nloc, rc.answer, checked));
+                        continue;
+                    }
+                    let stack_of = |a: &str| a.split("stack=").nth(1).map(|x| x.split(' ').next().unwrap_or("").to_string()).unwrap_or_default();
+                    if stack_of(&rc.answer) != stack_of(&rp.answer) {
+                        em.oracle_failures.push(format!(
+                            "C06 exec inside a procedure with locals computes a different stack than the plain form (last node {}, decorators `{}`): {} vs {} :: {}",
+                            lname, deco_after, stack_of(&rc.answer), stack_of(&rp.answer), checked));
+                    }
+                }
+            }
+        }
+    }
+    em.stat("frame_discipline_programs", frames);
 }
